@@ -180,8 +180,8 @@ class Fragment(AbstractApplication):
             rctr = BundleContainer()
             rctr.bundle.primary = reassm.first_frag.primary.copy()
             rctr.bundle.primary.bundle_flags &= ~PrimaryBlock.Flag.IS_FRAGMENT
-            rctr.bundle.primary.crc_type = AbstractBlock.CrcType.NONE
-            rctr.bundle.primary.crc_value = None
+            # same CRC type as the original, over the block as it is now
+            rctr.bundle.primary.update_crc()
 
             LOGGER.debug('Copying %d first-fragment blocks', len(reassm.first_frag.blocks))
             for blk in reassm.first_frag.blocks:
